@@ -62,3 +62,32 @@ Qed.
 (* the steps of the reader that only load *)
 Definition r_stores (p : rpc) : bool :=
   match p with RFailPost | RNoBufPost | RcSt0 _ _ | RcStDead _ _ | RcStRpt _ _ => true | _ => false end.
+
+(* a write reports success (returns its length) only in the step that publishes the chunk (no semaphore) or in
+   the sem_post step that directly follows that step (WPost is entered only from WStMagic, same call) *)
+Lemma success_published : forall h t r v l, wstep h t = Some r -> s_ret r = Some (v, l) -> 0 <= v ->
+  v = zlen (wdata t) /\ (s_gh r = GPub (wdata t) \/ w_pc t = WPost).
+Proof.
+  intros h t r v l H Hr Hv. unfold wstep in H.
+  destruct (w_pc t) eqn:E.
+  all: try (inversion H; subst; cbn in Hr; discriminate).
+  - destruct (w_prog t); [discriminate|]. inversion H; subst; cbn in Hr; discriminate.
+  - destruct (_ <? _); inversion H; subst; cbn in Hr; [|discriminate].
+    inversion Hr; subst. unfold RB_EAGAIN in Hv. lia.
+  - destruct rest; [discriminate|]. destruct rest; inversion H; subst; cbn in Hr; discriminate.
+  - destruct (hsem h); inversion H; subst; cbn in Hr; [discriminate|]. inversion Hr; subst. cbn. auto.
+  - inversion H; subst; cbn in Hr. inversion Hr; subst. auto.
+Qed.
+
+Lemma post_only_after_publish : forall h t r, wstep h t = Some r -> w_pc (s_t r) = WPost ->
+  s_gh r = GPub (wdata t) /\ wdata (s_t r) = wdata t.
+Proof.
+  intros h t r H Hp. unfold wstep in H.
+  destruct (w_pc t) eqn:E.
+  all: try (inversion H; subst; cbn in Hp; discriminate).
+  - destruct (w_prog t); [discriminate|]. inversion H; subst; cbn in Hp; discriminate.
+  - destruct (_ <? _); inversion H; subst; cbn in Hp; discriminate.
+  - destruct (wdata t); inversion H; subst; cbn in Hp; discriminate.
+  - destruct rest; [discriminate|]. destruct rest; inversion H; subst; cbn in Hp; discriminate.
+  - destruct (hsem h); inversion H; subst; cbn in Hp; [|discriminate]. cbn. auto.
+Qed.
